@@ -2,6 +2,7 @@ package props
 
 import (
 	"fmt"
+	"reflect"
 	"sort"
 	"strings"
 	"testing"
@@ -147,6 +148,12 @@ func checkMapContract(c *mon.Case, what string, node ipld.Node, probes []string,
 				v, err := f()
 				errs[i] = err
 				if err == nil && v != nil {
+					if rv := reflect.ValueOf(v); rv.Kind() == reflect.Ptr && rv.IsNil() {
+						// a nil pointer in a non-nil interface, with a nil error: reported as found
+						found[i] = true
+						links[i] = fmt.Sprintf("a nil %T pointer returned with a nil error", v)
+						return
+					}
 					cc, e := asCid(v)
 					if e == nil {
 						found[i] = true
